@@ -351,7 +351,7 @@ theorem timing_round {x : State} {a : A} (h : RInv cfg x a) (hna : MgrNotAll cfg
       else (roundPre cfg a r (stepR cfg x r).out).chk
         (!(sends (lastEvs (stepR cfg x r).out)).any (fun p => match p.2.2.body with | .timing .. => true | _ => false)) "C18"
         "TIMING_MESSAGE sent before its period elapsed") = roundPre cfg a r (stepR cfg x r).out := by
-  obtain ⟨x2, T, a', rT, rR, lastIO, hP, hS2, hrT, _⟩ := round_pre ok hfuel h hna hord r hr
+  obtain ⟨x2, T, a', rT, rR, lastIO, hP, hS2, hrT, _, _⟩ := round_pre ok hfuel h hna hord r hr
   generalize ha7 : roundPre cfg a r (stepR cfg x r).out = a7 at hP ⊢
   have hpre := hP.pre
   rw [ha7] at hpre
